@@ -1,7 +1,134 @@
 import Srsim.Spec.ModifierSpec
 import Srsim.Model.Heap
-/-! placeholder, replaced by the full theorem file once its proofs are in -/
+import Srsim.Proofs.NumRat
+import Srsim.Proofs.PropTotalLemmas
+import Srsim.Proofs.HeapLemmas
+import Mathlib.Data.List.Perm.Basic
+import Mathlib.Algebra.BigOperators.Group.List.Basic
+/-!
+# C06 — Stats are base plus attached modifiers; snapshots are private
+
+* `propTotal` (model of `EvalModifiers` + `NewStats`) is the documented combination of the base
+  stats and of exactly the attached instances — additive, and `1 − Π(1 − x)` for damage reduction
+  (property 90) and fatigue (property 91) — and does not depend on the order of attachment.
+* Heap model of `newInstance`: when the description's maps are copied every instance owns its
+  data (separation invariant over all histories); when they are shared it does not (witness).
+-/
+namespace Modifier
+
+theorem C06_sum_additive (base : List (Nat × Rat)) (l : List (Inst Rat)) (p : Nat) (hp : p ≠ 90 ∧ p ≠ 91) :
+    propTotal base l p = (contribs base l p).sum := by
+  rw [propTotal_eq, contribs_eq, foldl_pstep_add p hp, foldl2_pstep_add p hp, List.sum_append, zero_add]
+
+theorem C06_sum_multiplicative (base : List (Nat × Rat)) (l : List (Inst Rat)) (p : Nat) (hp : p = 90 ∨ p = 91) :
+    1 - propTotal base l p = ((contribs base l p).map (fun x => 1 - x)).prod := by
+  rw [propTotal_eq, contribs_eq, foldl_pstep_mul p hp, foldl2_pstep_mul p hp, List.map_append, List.prod_append,
+    sub_zero, one_mul]
+
+/-- the stats depend on *which* instances are attached, not on the order they were attached in -/
+theorem C06_perm (base : List (Nat × Rat)) (l₁ l₂ : List (Inst Rat)) (p : Nat) (h : l₁.Perm l₂) :
+    propTotal base l₁ p = propTotal base l₂ p := by
+  have hc := contribs_perm base l₁ l₂ p h
+  by_cases hp : p = 90 ∨ p = 91
+  · have h1 := C06_sum_multiplicative base l₁ p hp
+    have h2 := C06_sum_multiplicative base l₂ p hp
+    rw [(hc.map _).prod_eq] at h1
+    linarith
+  · have hp' : p ≠ 90 ∧ p ≠ 91 := by omega
+    rw [C06_sum_additive base l₁ p hp', C06_sum_additive base l₂ p hp', hc.sum_eq]
+
+/-- no residue: attaching an instance and detaching it again restores every property -/
+theorem C06_detach (base : List (Nat × Rat)) (l : List (Inst Rat)) (i : Inst Rat) (p : Nat)
+    (h : i.uid ∉ uids l) :
+    propTotal base ((l ++ [i]).filter (fun m => m.uid != i.uid)) p = propTotal base l p := by
+  have : (l ++ [i]).filter (fun m => m.uid != i.uid) = l := by
+    rw [List.filter_append]
+    have h1 : l.filter (fun m => m.uid != i.uid) = l := by
+      rw [List.filter_eq_self]
+      intro m hm
+      have : m.uid ≠ i.uid := fun e => h (by rw [← e]; exact List.mem_map_of_mem hm)
+      simpa using this
+    simp [h1]
+  rw [this]
+
+/-- a unit without modifiers has its base stats -/
+theorem C06_base_only (base : List (Nat × Rat)) (p : Nat) (hp : p ≠ 90 ∧ p ≠ 91) :
+    propTotal base [] p = (base.filterMap fun q => if q.1 == p && Num.neb q.2 0 then some q.2 else none).sum := by
+  rw [C06_sum_additive base [] p hp, contribs_eq]
+  simp only [List.flatMap_nil, List.nil_append]
+  rfl
+
+end Modifier
+
 namespace Heap
+
+/-- **Separation over all histories**: with copying `newInstance`, after any sequence of
+description creations, attachments (any reuse of one description for several units) and
+mutations, all maps held by instances and callers are distinct objects. -/
+theorem C06_separated (ops : List Op) : Separated (run true {} ops) :=
+  run_separated ops {} ⟨List.nodup_nil, fun _ h => by simp at h⟩
+
+/-- **Each instance owns its data**: in a separated state, changing one instance changes no other
+instance and no caller's description. -/
+theorem C06_instance_owns (s : St) (h : Separated s) (i : Nat) (p : Nat) (x : Int) :
+    (∀ j, j ≠ i → readInst (step true s (.mutInst i p x)) j = readInst s j) ∧
+    (∀ d, readDesc (step true s (.mutInst i p x)) d = readDesc s d) := by
+  obtain ⟨hn, _⟩ := h
+  simp only [step]
+  cases hi : s.insts[i]? with
+  | none => exact ⟨fun _ _ => rfl, fun _ => rfl⟩
+  | some r =>
+    simp only [readInst, readDesc, write]
+    have hni : s.insts.Nodup := (List.nodup_append.1 hn).2.1
+    constructor
+    · intro j hj
+      cases hjr : s.insts[j]? with
+      | none => rfl
+      | some r' =>
+        have : r' ≠ r := by
+          rintro rfl
+          obtain ⟨hi1, hi2⟩ := List.getElem?_eq_some_iff.1 hi
+          obtain ⟨hj1, hj2⟩ := List.getElem?_eq_some_iff.1 hjr
+          exact hj ((List.Nodup.getElem_inj_iff hni).1 (hj2.trans hi2.symm))
+        simp [this]
+    · intro d
+      cases hdr : s.descs[d]? with
+      | none => rfl
+      | some r' =>
+        have : r' ≠ r := by
+          rintro rfl
+          exact (List.nodup_append.1 hn).2.2 r' (List.mem_of_getElem? hdr) r' (List.mem_of_getElem? hi) rfl
+        simp [this]
+
+/-- a caller changing its description afterwards does not reach the instances made from it -/
+theorem C06_desc_change_private (s : St) (h : Separated s) (d : Nat) (p : Nat) (x : Int) :
+    ∀ j, readInst (step true s (.mutDesc d p x)) j = readInst s j := by
+  obtain ⟨hn, _⟩ := h
+  intro j
+  simp only [step]
+  cases hd : s.descs[d]? with
+  | none => rfl
+  | some r =>
+    simp only [readInst, write]
+    cases hjr : s.insts[j]? with
+    | none => rfl
+    | some r' =>
+      have : r' ≠ r := by
+        rintro rfl
+        exact (List.nodup_append.1 hn).2.2 r' (List.mem_of_getElem? hd) r' (List.mem_of_getElem? hjr) rfl
+      simp [this]
+
+/-- a new instance starts with the entries of its description -/
+theorem C06_attach_copies (s : St) (h : Separated s) (d : Nat) (r : Ref) (hr : s.descs[d]? = some r) :
+    readInst (step true s (.attach d)) s.insts.length = some (s.store r) := by
+  have _ := h
+  simp [step, hr, readInst, write]
+
+/-- sharing the caller's map violates ownership: one description attached twice, a change
+through the first instance is seen by the second -/
 theorem C06_sharing_breaks_ownership :
-    readInst (run false {} [.newDesc [(6, 25)], .attach 0, .attach 0, .mutInst 0 6 50]) 1 = some [(6, 75)] := by decide
+    readInst (run false {} [.newDesc [(6, 25)], .attach 0, .attach 0]) 1 = some [(6, 25)] ∧
+    readInst (run false {} [.newDesc [(6, 25)], .attach 0, .attach 0, .mutInst 0 6 50]) 1 = some [(6, 75)] := by
+  decide
+
 end Heap
